@@ -1,9 +1,117 @@
-"""Small client workloads that reach the algebra through other public entry points."""
+"""Client workloads that reach the algebra through other public entry points, and
+long-lived-object sessions.  They only *produce executions*: deciding is the job of
+whatever monitors are enabled on the attach points."""
+import random
+
+from . import sigs, w_alg
+from .sigs import PO, PK, VA, KO, VK
+
+
+def _retrieve(obj):
+    import sigtools
+    try:
+        return sigtools.signature(obj)
+    except Exception:
+        return None
 
 
 def drive_merge_clients(ctx, tier):
-    pass
+    """merge as discovery and Combination use it: forwarding programs with 2-3 calls
+    (retrieved, not executed) and Combination objects over generated functions."""
+    from . import w_auto
+    from sigtools import wrappers
+    rnd = ctx.rng('merge-clients')
+    n = {'quick': 300, 'thorough': 5000}[tier] // ctx.nshards
+    for _ in range(n):
+        if ctx.out_of_time('merge clients'):
+            break
+        src, meta = w_auto.gen_program(rnd.getrandbits(48), dict(ncalls=rnd.choice((2, 3))))
+        try:
+            g = w_auto.load(src)
+        except Exception:
+            continue
+        ctx.count('driver.multi_call_programs')
+        _retrieve(g['target'])
+    pos_names = ['x', 'y']
+    for _ in range(n // 2):
+        if ctx.out_of_time('merge clients'):
+            break
+        fs = []
+        for i in range(rnd.randint(2, 3)):
+            ps = [('arg', PK, None, None)]
+            npos = rnd.randint(0, 2)
+            ndef = rnd.randint(0, npos)
+            for j, nm in enumerate(pos_names[:npos]):
+                ps.append((nm, PK, '1' if j >= npos - ndef else None, None))
+            if rnd.random() < 0.6:
+                ps.append(('args', VA, None, None))
+            for nm in ('u', 'v'):
+                if rnd.random() < 0.4:
+                    ps.append((nm, KO, '1' if rnd.random() < 0.5 else None, None))
+            if rnd.random() < 0.6:
+                ps.append(('kwargs', VK, None, None))
+            fs.append(sigs.make_func(tuple(ps), name='comb%d' % i))
+        ctx.count('driver.combinations')
+        _retrieve(wrappers.Combination(*fs))
+
+
+def drive_session(ctx, tier, n_cases=None):
+    """A long session over a small set of *long-lived* signature objects: every operation of
+    the algebra is applied again and again to the same objects, in seeded order, results
+    included -- whatever an operation leaves behind on its inputs (a cache, a shared list, a
+    filled-in map) is met by the operations that follow."""
+    S = w_alg.sigapi()
+    rnd = ctx.rng('session')
+    pool = w_alg.SigPool()
+    U = sigs.U(('a', 'b', 'c'), 2) + sigs.U(('x', 'y'), 2)
+    n_cases = n_cases or {'quick': 40, 'thorough': 600}[tier] // ctx.nshards or 1
+    for _ in range(n_cases):
+        if ctx.out_of_time('sessions'):
+            break
+        live = [pool.sig(rnd.choice(U), fresh=True) for _ in range(6)]
+        ctx.count('driver.sessions')
+        for step in range(60):
+            op = rnd.choice(('mask', 'mask', 'merge', 'merge', 'embed', 'forwards', 'sort', 'replace'))
+            a, b = rnd.choice(live), rnd.choice(live)
+            try:
+                if op == 'mask':
+                    cand = [p.name for p in a.parameters.values()
+                            if p.kind in (p.POSITIONAL_OR_KEYWORD, p.KEYWORD_ONLY)]
+                    names = rnd.sample(cand, rnd.randint(0, min(2, len(cand))))
+                    r = S.mask(a, rnd.randint(0, 2), *names)
+                elif op == 'merge':
+                    r = S.merge(a, b) if rnd.random() < 0.7 else S.merge(a, b, rnd.choice(live))
+                elif op == 'embed':
+                    r = S.embed(a, b, use_varargs=rnd.random() < 0.85, use_varkwargs=rnd.random() < 0.85)
+                elif op == 'forwards':
+                    r = S.forwards(a, b, rnd.randint(0, 1))
+                elif op == 'sort':
+                    S.apply_params(a, *S.sort_params(a))
+                    r = None
+                else:
+                    r = a.replace(sources=dict(a.sources)) if rnd.random() < 0.5 else None
+            except ValueError:
+                r = None
+            ctx.count('driver.session_steps')
+            if r is not None and rnd.random() < 0.25:
+                live[rnd.randrange(len(live))] = r
 
 
 def drive_retrieval_clients(ctx, tier):
-    pass
+    """Provenance as retrieval produces it: declared and discovered forwarding (programs of the
+    W-AUTO grammar incl. chains through partial objects and methods)."""
+    from . import w_auto
+    rnd = ctx.rng('retrieval-clients')
+    n = {'quick': 300, 'thorough': 5000}[tier] // ctx.nshards
+    for _ in range(n):
+        if ctx.out_of_time('retrieval clients'):
+            break
+        src, meta = w_auto.gen_program(rnd.getrandbits(48))
+        try:
+            g = w_auto.load(src)
+        except Exception:
+            continue
+        ctx.count('driver.programs_retrieved')
+        _retrieve(g['target'])
+        for c in g.get('callee_objs', ()):
+            _retrieve(c)
